@@ -64,7 +64,7 @@ def unit_xsolution_save(twin=False):
             skipped += 1
             r.add("totals.others_save_nothing", DISCHARGED if not tw else FAILED, "symex", 0, repr(tw)[:160], kind="frame")
         else:
-            r.add("totals.case_decided", FAILED, "z3", 0, repr(s.pc)[:300])
+            r.add("totals.case_decided", UNDECIDED, "z3", 0, repr(s.pc)[:300])
     r.add("reach.totals", DISCHARGED if saved and skipped else UNDECIDED, "symex", 0, "%d saving, %d skipping paths" % (saved, skipped), kind="vacuity")
     r.assumptions += ["setters/getters of cxxSolution are plain field accessors (C10 covers their serialisation)", "isotopes, species maps and the Pitzer gamma list are not under this contract"]
     return r
